@@ -368,15 +368,18 @@ func startsWithSpace(s string) bool {
 // applySpelling rewrites the token stream with the chosen deviations: devs maps site index -> alternative index.
 func applySpelling(toks []stok, sites []site, devs [][2]int) string {
 	repl := map[int]string{}   // token index -> replacement text
-	before := map[int]string{} // token index -> text inserted before it
+	before := map[int]string{} // token index -> whitespace inserted before it
+	comma := map[int]string{}  // token index -> trailing comma inserted before it (and before any inserted whitespace)
 	for _, d := range devs {
 		s := sites[d[0]]
 		alt := s.alts[d[1]]
 		switch s.kind {
 		case 0:
 			repl[s.i] = alt
-		case 1, 3:
+		case 1:
 			before[s.i] += alt
+		case 3:
+			comma[s.i] += alt
 		case 2:
 			repl[s.i] = alt
 			repl[s.i+2] = alt
@@ -386,6 +389,9 @@ func applySpelling(toks []stok, sites []site, devs [][2]int) string {
 	}
 	var sb strings.Builder
 	for i, t := range toks {
+		if c, ok := comma[i]; ok {
+			sb.WriteString(c)
+		}
 		if b, ok := before[i]; ok {
 			sb.WriteString(b)
 		}
